@@ -271,6 +271,13 @@ def _receive_path(ctx, thorough):
             items.append(("faults", [("net", "accept"), ("open",), ("adv", 8), ("peerbytes", bytes(f0).hex()), ("turn", k), ("close",), ("adv", 24), ("open",), ("adv", 8),
                                      ("peerbytes", bytes(f0).hex()), ("adv", 8), ("heal",)]))
             meta.append(("check-bytes, second session", frames[0], bytes(f0)))
+        # after the damaged frame the console accepts the reconnection but drops it at once (it has not released the old session yet): the
+        # first write on it - made by the application's connection callback, as the API objects do - fails; the client tries again
+        for k in (0, 1):
+            f0 = bytearray(frames[k % len(frames)]); f0[-2] ^= 0x10
+            items.append(("faults", [("net", "accept"), ("subsend", 50, "ok", "conn"), ("subsend", 51, "ok", "conn"), ("subsend", 52, "ok", "conn"), ("open",), ("adv", 8),
+                                     ("failnext",), ("peerbytes", bytes(f0).hex()), ("adv", 24), ("heal",)]))
+            meta.append(("check-bytes, half-open reconnection", frames[k % len(frames)], bytes(f0)))
         # special intermediate register values: the intact frame must be delivered, a check-byte-damaged one must not
         intact = []
         for reg, fr in _special_register_frames(gen, ctx.rng)[: (60 if thorough else 21)]:
